@@ -26,6 +26,8 @@ RULE = (
     'Environment with two extra namespaces, a stateful helper term, a degenerate poly; events '
     'edit-frame-in-place and refused config assignments; every result is also observed as str / repr / '
     'as_dataframe. '
+    'Later: a caller array with unsorted knots, two 1200-row frames alike at both ends, helper terms with two '
+    'categorical factors, a refused evaluation as a deviation, the data held by each term in the snapshot. '
 )
 ASSUMPTIONS = [
     "fresh process-state = a process forked from the pristine parent (formulae imported, nothing executed); plus real fresh interpreters for the reference table under PYTHONHASHSEED 1 and 2",
